@@ -40,6 +40,11 @@ type Kernel struct {
 	RetVar  string            `json:"retvar"`   // return this variable instead of translating the return expression
 	Closure bool              `json:"closure"`  // translate the body of the first function literal inside the function
 	Pairs   map[string][]string `json:"pairs"`  // `v, ok := <expr>` (type assertion, map lookup, two-valued call): expr text -> [Lean value, Lean ok/err]
+	Composites map[string][]string `json:"composites"` // composite literal type text -> [Lean prefix, Lean suffix]; keyed fields become `f := e` via CompFields
+	CompFields map[string]string   `json:"compfields"` // Go field name of a composite literal -> Lean field name
+	// Calls values: "f" pure call; "$x" replace by x; "$id" identity on arg 0; "!f" statement `s := f s args`; "!!f" statement `s := f s` (arguments
+	// are event literals, ignored); "&f|v" a call with a side effect used inside a condition: `s := f s args` is hoisted in front of the
+	// `if` and the call's value is the Lean expression v (evaluated on the updated state)
 }
 
 type Schema struct {
@@ -151,9 +156,38 @@ func (t *tr) expr(e ast.Expr) string {
 		case token.LOR:
 			return fmt.Sprintf("(%s || %s)", a, b)
 		}
+	case *ast.TypeAssertExpr: // x.(T): values are untyped in the model
+		return t.expr(x.X)
+	case *ast.CompositeLit:
+		ty := exprText(x.Type)
+		pr, ok := t.k.Composites[ty]
+		if !ok || len(pr) != 2 {
+			panic("unmapped composite literal " + ty)
+		}
+		fs := []string{}
+		for _, el := range x.Elts {
+			kv, ok := el.(*ast.KeyValueExpr)
+			if !ok {
+				panic("positional composite literal " + ty)
+			}
+			name := exprText(kv.Key)
+			lf, ok := t.k.CompFields[name]
+			if !ok {
+				panic("unmapped composite field " + ty + "." + name)
+			}
+			fs = append(fs, lf+" := "+t.expr(kv.Value))
+		}
+		return "(" + pr[0] + strings.Join(fs, ", ") + pr[1] + ")"
 	case *ast.CallExpr:
 		fn := exprText(x.Fun)
 		if l, ok := t.k.Calls[fn]; ok {
+			if strings.HasPrefix(l, "&") {
+				parts := strings.SplitN(strings.TrimPrefix(l, "&"), "|", 2)
+				if len(parts) != 2 {
+					panic("malformed effectful call mapping " + l)
+				}
+				return "(" + parts[1] + ")"
+			}
 			if strings.HasPrefix(l, "$id") {
 				return t.expr(x.Args[0])
 			}
@@ -179,6 +213,19 @@ func (t *tr) assigned(ss []ast.Stmt, set map[string]bool) (hasRet bool) {
 	for _, s := range ss {
 		switch x := s.(type) {
 		case *ast.AssignStmt:
+			for _, r := range x.Rhs {
+				if t.hasEffect(r) {
+					set[t.k.State] = true
+				}
+				if pr, ok := t.k.Pairs[pairKey(r)]; ok && len(pr) == 3 {
+					set[t.k.State] = true
+				}
+			}
+			if len(x.Lhs) == 2 && len(x.Rhs) == 1 && x.Tok == token.ASSIGN {
+				if c, ok := x.Rhs[0].(*ast.CallExpr); ok && t.dropped(exprText(c.Fun)) {
+					continue
+				}
+			}
 			for _, lhs := range x.Lhs {
 				if id, ok := lhs.(*ast.Ident); ok {
 					if x.Tok != token.DEFINE {
@@ -277,6 +324,13 @@ func (t *tr) ret(x *ast.ReturnStmt, ind string) string {
 	case "state":
 		return ind + t.k.State + "\n"
 	case "val":
+		if len(x.Results) > 1 {
+			rs := []string{}
+			for _, r := range x.Results {
+				rs = append(rs, t.expr(r))
+			}
+			return fmt.Sprintf("%s(%s)\n", ind, strings.Join(rs, ", "))
+		}
 		return fmt.Sprintf("%s%s\n", ind, t.expr(x.Results[0]))
 	default:
 		if len(x.Results) == 0 {
@@ -284,6 +338,39 @@ func (t *tr) ret(x *ast.ReturnStmt, ind string) string {
 		}
 		return fmt.Sprintf("%s(%s, %s)\n", ind, t.expr(x.Results[0]), t.k.State)
 	}
+}
+
+// hoist returns the state updates of the calls with a side effect (schema "&f|v") that occur inside e; the state before the
+// update stays available as `<state>_pre` for the value expression v
+func (t *tr) hoist(e ast.Expr, ind string) string {
+	pre := ""
+	ast.Inspect(e, func(n ast.Node) bool {
+		if ce, ok := n.(*ast.CallExpr); ok {
+			if l, ok := t.k.Calls[exprText(ce.Fun)]; ok && strings.HasPrefix(l, "&") {
+				parts := strings.SplitN(strings.TrimPrefix(l, "&"), "|", 2)
+				args := []string{}
+				for _, a := range ce.Args {
+					args = append(args, t.expr(a))
+				}
+				pre += fmt.Sprintf("%slet %s_pre := %s;\n%slet %s := (%s %s);\n", ind, t.k.State, t.k.State, ind, t.k.State, parts[0], strings.Join(append([]string{t.k.State + "_pre"}, args...), " "))
+			}
+		}
+		return true
+	})
+	return pre
+}
+
+func (t *tr) hasEffect(e ast.Expr) bool {
+	found := false
+	ast.Inspect(e, func(n ast.Node) bool {
+		if ce, ok := n.(*ast.CallExpr); ok {
+			if l, ok := t.k.Calls[exprText(ce.Fun)]; ok && strings.HasPrefix(l, "&") {
+				found = true
+			}
+		}
+		return true
+	})
+	return found
 }
 
 // stmts translates a statement list followed by continuation k (Lean text producing the final value).
@@ -301,6 +388,9 @@ func (t *tr) stmts(ss []ast.Stmt, k func() string, ind string) string {
 				return cont()
 			}
 			// state-transforming call: calls map value "!f" means  s := f s args
+			if l, ok := t.k.Calls[fn]; ok && strings.HasPrefix(l, "!!") {
+				return fmt.Sprintf("%slet %s := (%s %s);\n", ind, t.k.State, strings.TrimPrefix(l, "!!"), t.k.State) + cont()
+			}
 			if l, ok := t.k.Calls[fn]; ok && strings.HasPrefix(l, "!") {
 				args := []string{}
 				for _, a := range c.Args {
@@ -338,11 +428,27 @@ func (t *tr) stmts(ss []ast.Stmt, k func() string, ind string) string {
 		}
 		return t.assign(x.X, fmt.Sprintf("(%s %s 1)", t.expr(x.X), op), ind) + cont()
 	case *ast.AssignStmt:
+		if len(x.Lhs) == 2 && len(x.Rhs) == 1 && x.Tok == token.ASSIGN {
+			// a, b = f(…) where f is in the drop list (e.g. deriving a child context): not modelled
+			if c, ok := x.Rhs[0].(*ast.CallExpr); ok && t.dropped(exprText(c.Fun)) {
+				return cont()
+			}
+		}
 		if len(x.Lhs) == 2 && len(x.Rhs) == 1 && x.Tok == token.DEFINE {
-			// v, ok := <type assertion | map lookup | two-valued call>, mapped by the schema
+			// v, ok := <type assertion | map lookup | two-valued call>, mapped by the schema; an optional third element names a
+			// state update the call performs: `s := f s` follows the two bindings
 			pr, ok := t.k.Pairs[pairKey(x.Rhs[0])]
-			if !ok || len(pr) != 2 {
+			if !ok || (len(pr) != 2 && len(pr) != 3) {
 				panic("unmapped two-valued assignment " + pairKey(x.Rhs[0]))
+			}
+			if len(pr) == 3 {
+				out := ""
+				for i, lhs := range x.Lhs {
+					if id, ok := lhs.(*ast.Ident); ok && id.Name != "_" {
+						out += fmt.Sprintf("%slet %s := %s;\n", ind, id.Name, pr[i])
+					}
+				}
+				return out + fmt.Sprintf("%slet %s := (%s %s);\n", ind, t.k.State, pr[2], t.k.State) + cont()
 			}
 			out := ""
 			for i, lhs := range x.Lhs {
@@ -356,7 +462,11 @@ func (t *tr) stmts(ss []ast.Stmt, k func() string, ind string) string {
 			panic("multi-assignment unsupported")
 		}
 		lhs := x.Lhs[0]
+		hoisted := t.hoist(x.Rhs[0], ind)
 		rhs := t.expr(x.Rhs[0])
+		if hoisted != "" {
+			return hoisted + t.assign(lhs, rhs, ind) + cont()
+		}
 		switch x.Tok {
 		case token.SUB_ASSIGN:
 			rhs = fmt.Sprintf("(%s - %s)", t.expr(lhs), rhs)
@@ -375,6 +485,8 @@ func (t *tr) stmts(ss []ast.Stmt, k func() string, ind string) string {
 			// if x := e; cond { … }  — the init is hoisted (names are fresh in the kernels translated)
 			return t.stmts(append([]ast.Stmt{x.Init, &ast.IfStmt{If: x.If, Cond: x.Cond, Body: x.Body, Else: x.Else}}, rest...), k, ind)
 		}
+		// calls with a side effect inside the condition (schema "&f|v"): the state update is hoisted in front of the `if`
+		pre += t.hoist(x.Cond, ind)
 		c := t.expr(x.Cond)
 		var elseList []ast.Stmt
 		switch eb := x.Else.(type) {
